@@ -176,7 +176,8 @@ def _build_template(target, directory, no_base) -> Template:  # pylint: disable=
 
 def template(target) -> Template:
     name = W.target_name(target)
-    if name not in _TEMPLATES:
+    tpl = _TEMPLATES.get(name)
+    if tpl is None or (tpl.path is not None and not os.path.exists(tpl.path)):  # scratch directory of another process
         _TEMPLATES[name] = build_template(target, scratch())
     return _TEMPLATES[name]
 
